@@ -1,10 +1,10 @@
 (* C03/Props.v — the property theorems, nothing else.
    Model: C03/Model.v (mirrors src/ircdb.py capability algebra, CapabilitySet,
    UserCapabilitySet, checkCapability, _checkCapabilityForUnknownUser).
-   Proofs: Fold.v, CaseInsens.v, Anti.v, Total.v, Reach.v, Spec.v, Chan.v, Hist.v. *)
+   Proofs: Fold.v, CaseInsens.v, Anti.v, Total.v, Reach.v, Spec.v, Chan.v, Hist.v, Grant.v. *)
 From Coq Require Import List NArith Bool.
 Import ListNotations.
-Require Import Base.Wire Base.PyStr C03.Model C03.Fold C03.CaseInsens C03.Anti C03.Total C03.Reach C03.Spec C03.Chan C03.Hist.
+Require Import Base.Wire Base.PyStr C03.Model C03.Fold C03.CaseInsens C03.Anti C03.Total C03.Reach C03.Spec C03.Chan C03.Hist C03.Grant.
 
 (* No exception escapes for a well-formed capability (non-empty, no
    whitespace), whatever the database and the three ignore* flags. *)
@@ -280,3 +280,41 @@ Theorem C03_checkCapabilities_total :
 Proof. exact checkCapabilities_total. Qed.
 Print Assumptions C03_checkCapabilities_total.
 
+
+(* The effect of a grant, as a step of the edit history: once
+   IrcUser.addCapability(c) succeeded for a capability c that is not an
+   anti-capability, the recognised, not ignored account holds c -- for EVERY
+   channel table, default set, registered-users set, default flag and every
+   triple of ignore* flags (an explicit user capability is decided before every
+   fallback).  [with_caps d S'] is d with the account's set replaced by the
+   result of the edit. *)
+Theorem C03_grant_effective :
+  forall d u c f S',
+    d_user d = Some u -> (u_secure u && negb (d_hostok d)) = false -> u_ignore u = false ->
+    isAntiCapability c = false -> ucs_add (u_caps u) c = Ok S' ->
+    checkCapability (with_caps d S') c f = Ok true.
+Proof. exact grant_effective. Qed.
+Print Assumptions C03_grant_effective.
+
+(* The same for ANY capability the edit accepted, anti-capabilities included,
+   when the account is not an owner afterwards: addCapability('-x') makes '-x' hold. *)
+Theorem C03_edit_effective_nonowner :
+  forall d u c f S',
+    d_user d = Some u -> (u_secure u && negb (d_hostok d)) = false -> u_ignore u = false ->
+    ucs_add (u_caps u) c = Ok S' -> smem OWNER S' = false ->
+    checkCapability (with_caps d S') c f = Ok true.
+Proof. exact edit_effective_nonowner. Qed.
+Print Assumptions C03_edit_effective_nonowner.
+
+(* The effect of a revocation: after addCapability of the anti-capability a of
+   p the non-owner account is refused p, whatever channels, default sets and
+   the default flag say (flag triples without ignoreDefaultAllow, databases
+   built by add: the domain of C03_anti_opposite). *)
+Theorem C03_revoke_effective :
+  forall d u p a f S',
+    antipair p a -> db_ok (with_caps d S') = true -> f_ignoreDefaultAllow f = false ->
+    d_user d = Some u -> (u_secure u && negb (d_hostok d)) = false -> u_ignore u = false ->
+    ucs_add (u_caps u) a = Ok S' -> smem OWNER S' = false ->
+    checkCapability (with_caps d S') p f = Ok false.
+Proof. exact revoke_effective. Qed.
+Print Assumptions C03_revoke_effective.
